@@ -9,9 +9,10 @@ CONSTANTS
   MaxClears = 1
   MaxEvals = 2
   MaxEdges = 2
-  MaxMarks = 1
+  MaxMarks = 0
   PropAllowed = TRUE
-  SetAllAllowed = TRUE
+  SetAllAllowed = FALSE
+  LateEdges = FALSE
   RoundNodes <- RN_3_1
 INIT MCInit
 NEXT MCNext
